@@ -369,9 +369,11 @@ def check_model(chk: Check, name: str, formalism: str, couplings=False, opaque=F
     for (top, idx_), want in spec.items():
         groups.setdefault(idx_, []).append(want)
     for idx_, parts in groups.items():
-        t0 = next((t for t in r.transitions if outer_projections(t, ids) == idx_), None)
+        # a representative with these outer projections: a transition of the reaction, or (projections that only an exchanged graph
+        # carries) a symmetrised graph -- the label names the outer states only
+        t0 = next((t for t in r.transitions if outer_projections(t, ids) == idx_), None) or next((g for g, _ in chains if outer_projections(g, ids) == idx_), None)
         if t0 is None:
-            badI.append(f"no transition (hence no component) carries the outer projections {idx_} although symmetrised chains do")
+            badI.append(f"nothing carries the outer projections {idx_}")
             continue
         cname = f"I_{{{generate_transition_label(t0)}}}"
         got = model.components.get(cname)
@@ -422,6 +424,7 @@ def build(chk: Check) -> None:
     chk.trust("z3 5.1.0 / cvc5 unsat answers; SymPy Rotation.d(...).doit() (its orthogonality is checked in C05)")
     names = ["jpsi_gamma_pi0_pi0", "jpsi_pi0_pip_pim", "d1_k_k_k0", "jpsi_sigmabar_sigma", "etac_lambda_lambdabar", "jpsi_p_pbar", "jpsi_k0_sigma_pbar_N", "lambdac_p_k_pi", "jpsi_kk_pipi", "d0_k_3pi_cascade", "jpsi_gamma_pi0_pi0_f2", "d0_k_pi_pi0",
              "chic2_gamma_gamma",  # two identical spin-1 particles from one node (no combinatorics), projections (+1,-1) and (-1,+1) are different final states
+             "psi2s_gamma_gamma_jpsi",  # identical spin-1 particles from different nodes, no other identical pair
              "chic0_omega_omega",  # the same resonance twice with the same daughters (two symmetrised gamma pi0 pairs, both nodes parity-flippable)
              "jpsi_gamma_pi0_pi0_twin"]  # resonances with an equal-but-renamed twin: transitions that compare equal and must still get their own names/coefficients
     if chk.tier == "quick":
